@@ -6,7 +6,7 @@ from .. import common, tlc, objmodel
 from . import c15
 
 PAL_CONSTS = {"ObjIds": "@MCObjIdsOne", "Pool": "@MCPoolPhos", "SiteArgs": "@MCSiteArgsQ", "PalArgs": "@MCPalArgs", "LegacyCache": False}
-TOKEN = re.compile(r'( )|(<br ?/?>)|<span style="color: ?([^";]*);?">(.)</span>', re.S)
+TOKEN = re.compile(r"""( )|(<br ?/?>)|<span style=["']color: ?([^"';]*);?["']>(.)</span>""", re.S)
 
 
 def tokenise(html):
